@@ -296,4 +296,5 @@ def run_program(program, ctx):
 
 
 def cleanup():
-    seams.uninstall()
+    from sim import solver_sim
+    solver_sim.cleanup()
